@@ -356,6 +356,11 @@ func VerifConst(fn string, args ...string) (res string) {
 // constant declared with the given name: its canonical text, its type, and
 // whether it is untyped. err is the type checking error, if any.
 func VerifConstEval(src string, name string) (desc string, typ string, untyped bool, err error) {
+	defer func() {
+		if r := recover(); r != nil {
+			err = fmt.Errorf("verif: panic: %v", r)
+		}
+	}()
 	tree, err := parseSource([]byte(src), false)
 	if err != nil {
 		return "", "", false, err
